@@ -174,7 +174,7 @@ class CopulaMassOracle:
         idx = list(range(self.d)) if idx is None else list(idx)
         a, b = list(a), list(b)
         for pos, (ai, bi) in enumerate(zip(a, b)):
-            if ai < 0 < bi:
+            if ai < 0 <= bi:      # (a, b] with b = 0 contains the axis x_k = 0
                 rest_idx = idx[:pos] + idx[pos + 1:]
                 ra, rb = a[:pos] + a[pos + 1:], b[:pos] + b[pos + 1:]
                 m_all = self.mass(ra, rb, rest_idx) if rest_idx else None
